@@ -28,6 +28,12 @@ def build(H, tier, seed):
     T.involution_lemmas(H, tier)
     from contracts import access_c as A
     A.vc_grade(H)
+    from contracts import dispatch_c as D
+    D.vc_binary_chain(H)
+    D.vc_unary_chain(H)
+    from contracts import codegen_glue_c as G
+    G.vc_do_codegen(H)
+    G.vc_func_builder(H)
 
 
 def standins(tier, seed):
